@@ -5,7 +5,11 @@
    Written from the property text.  The control connection is a command channel (DESIGN 4.2): the
    code sends commands (observed), the scripted Tor answers the oldest outstanding one (OAck), sends
    STATUS_CLIENT events on a connection only once SETEVENTS was accepted there, and the connection's
-   authentication outcome arrives as OBoot.  Independent of Model/ and Gen/. *)
+   authentication outcome arrives as OBoot.
+   The TorConfig handed to launch() is not attached to a protocol; attaching it (attach_protocol, seen
+   as EAttach) takes c_attach round trips, each answered by an OAttach stimulus (accepted / rejected).
+   The launch() result may be held back while such an attach is in flight (launch() returns a Tor whose
+   configuration is attached); everybody else is told at once.  Independent of Model/ and Gen/. *)
 From Coq Require Import List Bool Ascii Arith NArith Lia.
 From TxVerif Require Import Lib.Bytes.
 Import ListNotations.
@@ -13,7 +17,8 @@ Open Scope N_scope.
 
 Record cfg := { c_timeout : bool;        (* launch(timeout=...) given *)
                 c_userdir : bool;        (* launch(data_directory=...) given *)
-                c_killerr : bool }.      (* kill_on_stderr *)
+                c_killerr : bool;        (* kill_on_stderr *)
+                c_attach : N }.          (* round trips the attachment of the configuration takes *)
 
 Inductive exitst := XCode (n : N) | XSignal (s : N).
 
@@ -24,6 +29,7 @@ Inductive op :=
 | OConnFail                     (* ... fails *)
 | OBoot (c : N) (ok : bool)     (* connection c: authentication + protocol bootstrap finished / failed *)
 | OAck (c : N) (ok : bool)      (* Tor answers the oldest outstanding command on c: 250 OK / an error *)
+| OAttach (ok : bool)           (* Tor answers the current round trip of the config attach in flight: ok / rejected *)
 | OProgress (c : N) (p : N)     (* Tor reports bootstrap progress p on c (only delivered if events are on) *)
 | OStatus (c : N)               (* some other STATUS_CLIENT event on c *)
 | OTimeout                      (* the clock passes the launch timeout *)
@@ -39,6 +45,7 @@ Inductive obs :=
 | ELoseConn                     (* transport.loseConnection() *)
 | EConnecting                   (* connection_creator() called *)
 | ESent (c : N) (cmd : bytes)   (* command written on connection c *)
+| EAttach (c : N)               (* config.attach_protocol(connection c) called *)
 | EProgress (p : N)             (* progress_updates callback *)
 | ERaised (k : N)               (* the stimulus raised: 1 RuntimeError, 2 AlreadyCalled, 9 other *)
 | EDir (there : bool).          (* after the operation: does the data directory exist *)
@@ -57,6 +64,7 @@ Definition obs_eqb (a b : obs) : bool :=
   | ELoseConn, ELoseConn => true
   | EConnecting, EConnecting => true
   | ESent c x, ESent c' y => (c =? c') && beqb x y
+  | EAttach c, EAttach c' => c =? c'
   | EProgress p, EProgress q => p =? q
   | ERaised j, ERaised k => j =? k
   | EDir x, EDir y => Bool.eqb x y
@@ -89,11 +97,14 @@ Record sst := { s_conns : list sconn;
                 s_timer : bool;             (* a timeout was given and the clock has not passed it *)
                 s_gone : bool;              (* process ended or reactor shut down *)
                 s_acc : bytes;              (* stdout so far, until the first connection attempt *)
-                s_tried : bool }.           (* a connection attempt was made *)
+                s_tried : bool;             (* a connection attempt was made *)
+                s_att : N;                  (* round trips the config attach in flight still needs; 0 = none in flight *)
+                s_wait0 : bool }.           (* launch succeeded, its result (waiter 0) is held back until the attach is over *)
 
 Definition s0 (c : cfg) : sst :=
   {| s_conns := []; s_npend := 0; s_decided := None; s_waiting := [0]; s_exited := false;
-     s_timer := c_timeout c; s_gone := false; s_acc := []; s_tried := false |}.
+     s_timer := c_timeout c; s_gone := false; s_acc := []; s_tried := false;
+     s_att := 0; s_wait0 := false |}.
 
 Definition nthc (s : sst) (c : N) : option sconn := nth_error (s_conns s) (N.to_nat c).
 
@@ -107,15 +118,36 @@ Fixpoint set_nth {A} (n : nat) (x : A) (l : list A) : list A :=
 Definition upd_conn (s : sst) (c : N) (q : sconn) : sst :=
   {| s_conns := set_nth (N.to_nat c) q (s_conns s); s_npend := s_npend s; s_decided := s_decided s;
      s_waiting := s_waiting s; s_exited := s_exited s; s_timer := s_timer s; s_gone := s_gone s;
-     s_acc := s_acc s; s_tried := s_tried s |}.
+     s_acc := s_acc s; s_tried := s_tried s; s_att := s_att s; s_wait0 := s_wait0 s |}.
 
 Definition decide (s : sst) (b : bool) : sst :=
   match s_decided s with
   | Some _ => s
   | None => {| s_conns := s_conns s; s_npend := s_npend s; s_decided := Some b; s_waiting := [];
                s_exited := s_exited s; s_timer := s_timer s; s_gone := s_gone s;
-               s_acc := s_acc s; s_tried := s_tried s |}
+               s_acc := s_acc s; s_tried := s_tried s; s_att := s_att s; s_wait0 := s_wait0 s |}
   end.
+
+Definition memN (k : N) (l : list N) : bool := existsb (N.eqb k) l.
+Fixpoint nodupN (l : list N) : bool :=
+  match l with [] => true | x :: l' => negb (memN x l') && nodupN l' end.
+(* the waiters without the launch() result *)
+Definition drop0 (l : list N) : list N := filter (fun w => negb (w =? 0)) l.
+
+(* the launch succeeded: everybody waiting is to be told; whether the launch() result (waiter 0) was
+   among those told is taken from the observations (absorb1) *)
+Definition decide_ok (s : sst) : sst :=
+  match s_decided s with
+  | Some _ => s
+  | None => {| s_conns := s_conns s; s_npend := s_npend s; s_decided := Some true; s_waiting := [];
+               s_exited := s_exited s; s_timer := s_timer s; s_gone := s_gone s;
+               s_acc := s_acc s; s_tried := s_tried s; s_att := s_att s;
+               s_wait0 := memN 0 (s_waiting s) |}
+  end.
+
+(* the config attach in flight is over with this answer: the last round trip accepted, or one rejected *)
+Definition att_resolves (s : sst) (ok : bool) : bool :=
+  if ok then s_att s =? 1 else negb (s_att s =? 0).
 
 (* events reach the client on c only when Tor has them switched on there *)
 Definition delivered (s : sst) (c : N) : bool :=
@@ -131,17 +163,17 @@ Definition op_effect (c : cfg) (s : sst) (o : op) : sst :=
       if s_tried s then s else
       {| s_conns := s_conns s; s_npend := s_npend s; s_decided := s_decided s; s_waiting := s_waiting s;
          s_exited := s_exited s; s_timer := s_timer s; s_gone := s_gone s;
-         s_acc := s_acc s ++ chunk; s_tried := false |}
+         s_acc := s_acc s ++ chunk; s_tried := false; s_att := s_att s; s_wait0 := s_wait0 s |}
   | OConnOk =>
       match s_npend s with
       | O => s
       | S n => {| s_conns := s_conns s ++ [{| q_auth := false; q_own := false; q_evon := false; q_fifo := [] |}];
                   s_npend := n; s_decided := s_decided s; s_waiting := s_waiting s; s_exited := s_exited s;
-                  s_timer := s_timer s; s_gone := s_gone s; s_acc := s_acc s; s_tried := s_tried s |}
+                  s_timer := s_timer s; s_gone := s_gone s; s_acc := s_acc s; s_tried := s_tried s; s_att := s_att s; s_wait0 := s_wait0 s |}
       end
   | OConnFail =>
       {| s_conns := s_conns s; s_npend := pred (s_npend s); s_decided := s_decided s; s_waiting := s_waiting s;
-         s_exited := s_exited s; s_timer := s_timer s; s_gone := s_gone s; s_acc := s_acc s; s_tried := s_tried s |}
+         s_exited := s_exited s; s_timer := s_timer s; s_gone := s_gone s; s_acc := s_acc s; s_tried := s_tried s; s_att := s_att s; s_wait0 := s_wait0 s |}
   | OBoot k ok =>
       match nthc s k with
       | Some q => if ok then upd_conn s k {| q_auth := true; q_own := q_own q; q_evon := q_evon q; q_fifo := q_fifo q |}
@@ -160,33 +192,40 @@ Definition op_effect (c : cfg) (s : sst) (o : op) : sst :=
       | None => s
       end
   | OProgress k p =>
-      if (p =? 100) && full_bootstrap s k then decide s true else s
+      if (p =? 100) && full_bootstrap s k then decide_ok s else s
+  | OAttach ok =>
+      if s_att s =? 0 then s else
+      {| s_conns := s_conns s; s_npend := s_npend s; s_decided := s_decided s; s_waiting := s_waiting s;
+         s_exited := s_exited s; s_timer := s_timer s; s_gone := s_gone s; s_acc := s_acc s; s_tried := s_tried s;
+         s_att := if ok then N.pred (s_att s) else 0;
+         s_wait0 := s_wait0 s && negb (att_resolves s ok) |}
   | OStatus _ => s
   | OTimeout =>
       if s_timer s then
         let s1 := decide s false in
         {| s_conns := s_conns s1; s_npend := s_npend s1; s_decided := s_decided s1; s_waiting := s_waiting s1;
-           s_exited := s_exited s1; s_timer := false; s_gone := s_gone s1; s_acc := s_acc s1; s_tried := s_tried s1 |}
+           s_exited := s_exited s1; s_timer := false; s_gone := s_gone s1; s_acc := s_acc s1; s_tried := s_tried s1; s_att := s_att s1; s_wait0 := s_wait0 s1 |}
       else s
   | OExit _ =>
       let s1 := decide s false in
       {| s_conns := s_conns s1; s_npend := s_npend s1; s_decided := s_decided s1; s_waiting := s_waiting s1;
-         s_exited := true; s_timer := s_timer s1; s_gone := true; s_acc := s_acc s1; s_tried := s_tried s1 |}
+         s_exited := true; s_timer := s_timer s1; s_gone := true; s_acc := s_acc s1; s_tried := s_tried s1; s_att := s_att s1; s_wait0 := s_wait0 s1 |}
   | OWhen w =>
       match s_decided s with
       | Some _ => s
       | None => {| s_conns := s_conns s; s_npend := s_npend s; s_decided := None; s_waiting := s_waiting s ++ [w];
                    s_exited := s_exited s; s_timer := s_timer s; s_gone := s_gone s; s_acc := s_acc s;
-                   s_tried := s_tried s |}
+                   s_tried := s_tried s; s_att := s_att s; s_wait0 := s_wait0 s |}
       end
   | OErr _ => s
   | OShutdown =>
       {| s_conns := s_conns s; s_npend := s_npend s; s_decided := s_decided s; s_waiting := s_waiting s;
-         s_exited := s_exited s; s_timer := s_timer s; s_gone := true; s_acc := s_acc s; s_tried := s_tried s |}
+         s_exited := s_exited s; s_timer := s_timer s; s_gone := true; s_acc := s_acc s; s_tried := s_tried s; s_att := s_att s; s_wait0 := s_wait0 s |}
   end.
 
-(* what the client was seen to do: commands sent, connection attempts *)
-Definition absorb1 (s : sst) (e : obs) : sst :=
+(* what the client was seen to do: commands sent, connection attempts, the config attach started, the
+   launch() result delivered *)
+Definition absorb1 (c : cfg) (s : sst) (e : obs) : sst :=
   match e with
   | ESent k cmd =>
       match nthc s k with
@@ -196,12 +235,22 @@ Definition absorb1 (s : sst) (e : obs) : sst :=
       end
   | EConnecting =>
       {| s_conns := s_conns s; s_npend := S (s_npend s); s_decided := s_decided s; s_waiting := s_waiting s;
-         s_exited := s_exited s; s_timer := s_timer s; s_gone := s_gone s; s_acc := s_acc s; s_tried := true |}
+         s_exited := s_exited s; s_timer := s_timer s; s_gone := s_gone s; s_acc := s_acc s; s_tried := true; s_att := s_att s; s_wait0 := s_wait0 s |}
+  | EAttach _ =>
+      {| s_conns := s_conns s; s_npend := s_npend s; s_decided := s_decided s; s_waiting := s_waiting s;
+         s_exited := s_exited s; s_timer := s_timer s; s_gone := s_gone s; s_acc := s_acc s; s_tried := s_tried s;
+         s_att := c_attach c; s_wait0 := s_wait0 s |}
+  | EFired w _ =>
+      if w =? 0 then
+        {| s_conns := s_conns s; s_npend := s_npend s; s_decided := s_decided s; s_waiting := s_waiting s;
+           s_exited := s_exited s; s_timer := s_timer s; s_gone := s_gone s; s_acc := s_acc s; s_tried := s_tried s;
+           s_att := s_att s; s_wait0 := false |}
+      else s
   | _ => s
   end.
-Definition absorb (s : sst) (es : list obs) : sst := fold_left absorb1 es s.
+Definition absorb (c : cfg) (s : sst) (es : list obs) : sst := fold_left (absorb1 c) es s.
 
-Definition spec_step (c : cfg) (s : sst) (o : op) (es : list obs) : sst := absorb (op_effect c s o) es.
+Definition spec_step (c : cfg) (s : sst) (o : op) (es : list obs) : sst := absorb c (op_effect c s o) es.
 
 (* ---- judging one chunk ---- *)
 Definition fires (es : list obs) : list (N * res) :=
@@ -215,10 +264,6 @@ Definition dirs (es : list obs) : list bool :=
 
 Definition res_is (b : bool) (r : res) : bool :=
   match r with ROk => b | RFail _ => negb b end.
-
-Definition memN (k : N) (l : list N) : bool := existsb (N.eqb k) l.
-Fixpoint nodupN (l : list N) : bool :=
-  match l with [] => true | x :: l' => negb (memN x l') && nodupN l' end.
 
 (* every waiting waiter fires, once, with outcome b; nobody else does *)
 Definition all_fire (waiting : list N) (b : bool) (fs : list (N * res)) : bool :=
@@ -265,9 +310,20 @@ Definition chunk_ok (c : cfg) (s : sst) (o : op) (es : list obs) : bool :=
           quiet &&
           if (p =? 100) && delivered s k then
             match s_decided s with
-            | None => if full_bootstrap s k then all_fire (s_waiting s) true fs else no_fire fs
+            | None =>
+                if full_bootstrap s k then
+                  (* everybody is told; the launch() result may be held back only while the configuration
+                     is being attached (it is then due when that attach is over, see OAttach) *)
+                  all_fire (s_waiting s) true fs
+                  || (negb (s_att (absorb c s' es) =? 0) && all_fire (drop0 (s_waiting s)) true fs)
+                else no_fire fs
             | Some _ => no_fire fs
             end
+          else no_fire fs
+      | OAttach ok =>
+          quiet &&
+          if s_wait0 s && att_resolves s ok then
+            match fs with [(w, r)] => (w =? 0) && res_is ok r | _ => false end
           else no_fire fs
       | _ => quiet && no_fire fs
       end).
